@@ -88,4 +88,46 @@ theorem heldByOther_none {α : Type} {s : Sid} {r : Row α} (h : r.heldByOther s
     · rename_i hts; exact Or.inr (by rw [hts])
     · cases h
 
+/-- `InsertTransaction` touches neither balances nor the read ghosts nor locks -/
+theorem insTx_frame {w : World} {s : Sid} {l ref : Nat} {id : Option Nat} {w' : World}
+    (h : (∃ o, insTx w s l ref id = .done w' o) ∨ (∃ e, insTx w s l ref id = .failed w' e)) :
+    w'.vols = w.vols ∧ w'.reads = w.reads ∧ w'.spent = w.spent ∧ w'.adv = w.adv ∧ w'.logs = w.logs ∧
+    w'.state = w.state ∧ w'.revWins = w.revWins ∧ w'.logSeq = w.logSeq := by
+  unfold insTx at h
+  dsimp only at h
+  cases h1 : w.txs.find? (fun t => decide (t.l = l) && decide (t.id = id.getD (w.txSeq l + 1))) with
+  | some t =>
+    rw [h1] at h; dsimp only at h
+    rcases h with ⟨o, h⟩ | ⟨e, h⟩ <;> split at h <;> first | (cases h; done) | (cases h; exact ⟨rfl, rfl, rfl, rfl, rfl, rfl, rfl, rfl⟩)
+  | none =>
+    rw [h1] at h; dsimp only at h
+    cases h2 : (if ref = 0 then none else w.txs.find? (fun t => decide (t.l = l) && decide (t.ref = ref))) with
+    | some t =>
+      rw [h2] at h; dsimp only at h
+      rcases h with ⟨o, h⟩ | ⟨e, h⟩ <;> split at h <;> first | (cases h; done) | (cases h; exact ⟨rfl, rfl, rfl, rfl, rfl, rfl, rfl, rfl⟩)
+    | none =>
+      rw [h2] at h; dsimp only at h
+      rcases h with ⟨o, h⟩ | ⟨e, h⟩ <;> first | (cases h; done) | (cases h; exact ⟨rfl, rfl, rfl, rfl, rfl, rfl, rfl, rfl⟩)
+
+/-- the log INSERT touches neither balances nor the read ghosts nor locks -/
+theorem insLog_frame {w : World} {s : Sid} {l ik hash : Nat} {sync : Bool} {id : Option Nat} {tx : Nat} {w' : World}
+    (h : (∃ o, insLog w s l ik hash sync id tx = .done w' o) ∨ (∃ e, insLog w s l ik hash sync id tx = .failed w' e)) :
+    w'.vols = w.vols ∧ w'.reads = w.reads ∧ w'.spent = w.spent ∧ w'.adv = w.adv ∧ w'.txs = w.txs ∧
+    w'.state = w.state ∧ w'.revWins = w.revWins ∧ w'.rev = w.rev ∧ w'.txSeq = w.txSeq := by
+  unfold insLog at h
+  dsimp only at h
+  cases h1 : w.logs.find? (fun e => decide (e.l = l) && decide (e.id = id.getD (w.logSeq l + 1))) with
+  | some t =>
+    rw [h1] at h; dsimp only at h
+    rcases h with ⟨o, h⟩ | ⟨e, h⟩ <;> split at h <;> first | (cases h; done) | (cases h; exact ⟨rfl, rfl, rfl, rfl, rfl, rfl, rfl, rfl, rfl⟩)
+  | none =>
+    rw [h1] at h; dsimp only at h
+    cases h2 : (if ik = 0 then none else w.logs.find? (fun e => decide (e.l = l) && decide (e.ik = ik))) with
+    | some t =>
+      rw [h2] at h; dsimp only at h
+      rcases h with ⟨o, h⟩ | ⟨e, h⟩ <;> split at h <;> first | (cases h; done) | (cases h; exact ⟨rfl, rfl, rfl, rfl, rfl, rfl, rfl, rfl, rfl⟩)
+    | none =>
+      rw [h2] at h; dsimp only at h
+      rcases h with ⟨o, h⟩ | ⟨e, h⟩ <;> first | (cases h; done) | (cases h; exact ⟨rfl, rfl, rfl, rfl, rfl, rfl, rfl, rfl, rfl⟩)
+
 end Ledger.Sched
